@@ -203,6 +203,24 @@ impl Monitor for C05 {
         let exact = rep % 2 == 0;
         let len = if exact { (4 * n + 40).min(300) } else { (6 * n + 60).max(cfg.tier.pick(300, 1500)) };
         let mut xs = gen::gen(class, n, len, &mut rng);
+        if rng.chance(1, 4) {
+            for x in xs.iter_mut() {
+                if *x == 0.0 && rng.coin() {
+                    *x = -0.0;
+                }
+            }
+            out.count("trials_with_signed_zeros", 1);
+        }
+        // one trial in six walks in steps of +-2^k, k in -45..5: gains and losses whose ratio reaches
+        // 1e15 inside one window (a loss "negligible next to the gain" is still a loss)
+        if rng.chance(1, 6) {
+            let mut x = 1.0f64;
+            for v in xs.iter_mut() {
+                x += 2f64.powi(rng.range(-45, 5) as i32) * if rng.coin() { 1.0 } else { -1.0 };
+                *v = x;
+            }
+            out.count("trials_with_steps_spanning_15_decades", 1);
+        }
         // one f64 trial in six is quoted in tiny units: the generated values are multiples of 2^-10
         // below 2^15, so that times 2^-1064 / 2^-1040 every value, change and sum of changes is a
         // subnormal number computed without rounding (times 2^-1010: normal values, subnormal
